@@ -65,6 +65,10 @@ pub fn dispatch(args: &[String]) -> i32 {
         "iter" => scen_iter(&ctx),
         "params" => scen_params(&ctx),
         "sizes" => scen_sizes(&ctx),
+        "mkgolden-seqs" => scen_mkgolden_seqs(&ctx),
+        "golden" => scen_golden(&ctx),
+        "sig" => scen_sig(&ctx),
+        "fault" => scen_fault(&ctx),
         "sentinel" => scen_sentinel(&ctx),
         "keys" => scen_keys(&ctx),
         "multi" => scen_multi(&ctx),
@@ -1084,17 +1088,18 @@ pub fn scen_sizes(ctx: &Ctx) -> i32 {
         gen_compare(&mut d, &mut g, format!("gen krounduprange 1 {}", hi), want, hi - 1);
         let want = bp(|x| (V::capacity_to_buckets_size(x), x.next_power_of_two()), 1, 100_000);
         gen_compare(&mut d, &mut g, "gen caprange 1 100000".into(), want, 99_999);
-        for sz in (0..1300u32).chain([1024 * 5, 1 << 20, u32::MAX / 2]) {
-            let (o, l) = V::key_free_list_offset(sz.max(1));
-            gen_compare(&mut d, &mut g, format!("gen kfree {}", sz.max(1)), format!("{} {}", o, l), 1);
-            let (o, l) = V::value_free_list_offset(sz.max(1));
-            gen_compare(&mut d, &mut g, format!("gen vfree {}", sz.max(1)), format!("{} {}", o, l), 1);
+        // (the crate debug-asserts that a size outside the table is above 896)
+        for sz in CLASSES.iter().map(|c| *c as u32).chain(897..1400u32).chain([1024 * 5, 1 << 20, u32::MAX / 2]) {
+            let (o, l) = V::key_free_list_offset(sz);
+            gen_compare(&mut d, &mut g, format!("gen kfree {}", sz), format!("{} {}", o, l), 1);
+            let (o, l) = V::value_free_list_offset(sz);
+            gen_compare(&mut d, &mut g, format!("gen vfree {}", sz), format!("{} {}", o, l), 1);
         }
         gen_compare(&mut d, &mut g, "gen cap 0".into(), "panic".into(), 1);
         for k in 0..64 {
             for dlt in [0u64, 1] {
                 let c = (1u64 << k).wrapping_sub(dlt).max(1);
-                if c + c / 8 < 1 << 62 {
+                if c < 1 << 60 {
                     gen_compare(&mut d, &mut g, format!("gen cap {}", c), V::capacity_to_buckets_size(c).to_string(), 1);
                 }
             }
@@ -1312,4 +1317,495 @@ pub fn scen_keys(ctx: &Ctx) -> i32 {
     let mut b = run_batch(ctx, seqs, |_| RunOpts { cmp_end: true, ..Default::default() }, &["api", "oracle", "bytes"], "keys");
     b.failures.extend(failures);
     finish(ctx, "keys", &b, vec![("gen_evaluations", g.evaluations.to_string())])
+}
+
+// ------------------------------------------------------------------------------------
+// C12: golden images written by the pinned release
+// ------------------------------------------------------------------------------------
+/// writes the histories from which the golden images are produced (run once; the images themselves
+/// are written by a small program linked against the *pinned* tree, see golden/README)
+pub fn scen_mkgolden_seqs(ctx: &Ctx) -> i32 {
+    let out = PathBuf::from(ctx.args.get("out").cloned().unwrap_or_else(|| "/verif/golden".into()));
+    let mut rng = Rng::new(20260926);
+    for kt in Kt::ALL {
+        for (vi, bk) in [Bk::Size(64), Bk::Cap(4)].into_iter().enumerate() {
+            let mut r = rng.fork(vi as u64 * 7 + kt as u64);
+            let mut keys: Vec<B> = Vec::new();
+            while keys.len() < 34 {
+                let k = gen_key(&mut r, kt, 0);
+                if !keys.iter().any(|x| x.bytes() == k.bytes()) {
+                    keys.push(k);
+                }
+            }
+            let mut ops = Vec::new();
+            for (i, k) in keys.iter().enumerate().take(30) {
+                let l = match i { 3 => 1100, 9 => 3000, 17 => 1019, _ => r.below(180) as usize };
+                ops.push(Op::Put(k.clone(), B::Pat(l, i as u64)));
+            }
+            // overwrites that grow across a class edge (the old slots go to the free lists)
+            for i in [1usize, 5, 7, 11] {
+                ops.push(Op::Put(keys[i].clone(), B::Pat(200 + i * 13, 50 + i as u64)));
+            }
+            // deletes: small ones and one large
+            for i in [0usize, 2, 4, 6, 8, 10, 12, 14, 9] {
+                ops.push(Op::Del(keys[i].clone()));
+            }
+            // a few more small entries (reuse of small free slots)
+            for (i, k) in keys.iter().enumerate().skip(30) {
+                ops.push(Op::Put(k.clone(), B::Pat(10 + i, 90)));
+            }
+            let seq = Seq { kt, params: Params { bk, ..Params::buckets(1) }, ops };
+            let d = out.join(format!("{}_{}", kt.name(), vi));
+            let _ = std::fs::create_dir_all(&d);
+            let _ = std::fs::write(d.join("history.txt"), seq.text());
+        }
+    }
+    println!("{{\"scenario\":\"mkgolden-seqs\",\"failures\":[]}}");
+    0
+}
+
+/// C12: each golden image (1) equals render(model after its history) byte for byte — the format the
+/// pinned release wrote is the format the model (and, by the other checks, the current code) writes;
+/// (2) opens under the current code with exactly the expected contents; (3) can be updated further.
+pub fn scen_golden(ctx: &Ctx) -> i32 {
+    let gdir = PathBuf::from(ctx.args.get("golden").cloned().unwrap_or_else(|| "/verif/golden".into()));
+    let mut b = Batch::default();
+    let mut rng = Rng::new(ctx.seed ^ fnv("golden"));
+    let mut names: Vec<PathBuf> = std::fs::read_dir(&gdir).map(|rd| rd.flatten().map(|e| e.path()).filter(|p| p.join("history.txt").exists() && p.join("m0.htx").exists()).collect()).unwrap_or_default();
+    names.sort();
+    let mut images = 0;
+    for (gi, g) in names.iter().enumerate() {
+        let Some(hist) = std::fs::read_to_string(g.join("history.txt")).ok().and_then(|t| Seq::parse(&t)) else { continue };
+        images += 1;
+        for round in 0..(if ctx.tier_thorough { 6 } else { 2 }) {
+            let dir = fresh_dir(&ctx.scratch, &format!("golden_{}_{}", gi, round));
+            for e in ["htx", "key", "val"] {
+                let _ = std::fs::copy(g.join(format!("m0.{}", e)), dir.join(format!("m0.{}", e)));
+            }
+            // continuation: read everything, then update further
+            let mut r = rng.fork((gi * 10 + round) as u64);
+            let mut p = Profile::basic(hist.kt, 64, 60);
+            p.w = [40, 15, 15, 3, 2, 1, 3, 1, 0, 1, 0, 2, 0, 0];
+            let cont = gen_history(&mut r, &p);
+            let mut d = Driver::spawn(&ctx.driver).ok();
+            // phase 1: the model alone replays the golden history, then the golden files are compared with render(model)
+            let mut diffs: Vec<Diff> = Vec::new();
+            let mut oracle: std::collections::BTreeMap<Vec<u8>, Vec<u8>> = Default::default();
+            if let Some(dr) = d.as_mut() {
+                let (kind, x) = match hist.params.bk { Bk::Default => ("default", 0), Bk::Size(n) => ("size", n), Bk::Cap(c) => ("cap", c) };
+                let n = dr.ask(&format!("gen buckets {} {}", kind, x));
+                dr.ask(&format!("m0 open {} {}", hist.kt.name(), n));
+                for o in &hist.ops {
+                    match o {
+                        Op::Put(k, v) => {
+                            dr.ask(&format!("m0 put {} {}", k.tok(), v.tok()));
+                            oracle.insert(k.bytes(), v.bytes());
+                        }
+                        Op::Del(k) => {
+                            dr.ask(&format!("m0 del {}", k.tok()));
+                            oracle.remove(&k.bytes());
+                        }
+                        _ => {}
+                    }
+                }
+                let a = dr.ask(&format!("m0 cmp {}", dir.to_string_lossy()));
+                b.cov.cmps += 1;
+                if a != "htx=ok key=ok val=ok" {
+                    diffs.push(Diff { idx: 0, facet: "golden-bytes", op: format!("golden image {} vs render(model after its history)", g.display()), got: a, want: "htx=ok key=ok val=ok".into() });
+                }
+            }
+            // independent decoder: the golden image decodes to the expected contents
+            let dec = crate::decoder::decode(&dir, "m0", &sig_of(hist.kt));
+            let mut got = dec.entries.clone();
+            got.sort();
+            let want: Vec<(Vec<u8>, Vec<u8>)> = oracle.iter().map(|(k, v)| (k.clone(), v.clone())).collect();
+            if !dec.errors.is_empty() || got != want {
+                diffs.push(Diff { idx: 0, facet: "golden-decoder", op: format!("decode golden image {}", g.display()), got: dec.errors.first().cloned().unwrap_or_else(|| format!("{} entries", got.len())), want: format!("{} entries as recorded", want.len()) });
+            }
+            // phase 2: the current code opens the copy: contents, then further updates (model continues from its state)
+            let mut ops: Vec<Op> = vec![Op::Len, Op::Iter(0)];
+            for (k, _) in oracle.iter() {
+                ops.push(Op::Get(B::Hex(k.clone())));
+            }
+            ops.extend(cont.ops.iter().cloned());
+            let seq = Seq { kt: hist.kt, params: if round % 2 == 0 { hist.params } else { Params::buckets(1) }, ops };
+            let out = run_seq_with_state(&seq, &dir, &mut d, &RunOpts { cmp_end: true, decoder: true, ..Default::default() }, oracle);
+            diffs.extend(out.diffs.iter().cloned());
+            b.sequences += 1;
+            b.ops += out.steps as u64;
+            b.cov.merge(&out.cov);
+            b.distinct.insert(fnv(&seq.text()));
+            if b.samples.is_empty() {
+                b.samples.push(format!("golden {} then: {}", g.display(), seq.text().chars().take(600).collect::<String>()));
+            }
+            if let Some(dd) = diffs.first() {
+                if b.failures.len() < 3 {
+                    let path = write_replay(ctx, &seq, dd.facet, &diffs, &format!("golden={}", g.display()));
+                    b.failures.push(Failure { facet: dd.facet.to_string(), replay: path, detail: format!("{} | observed: {} | expected: {}", dd.op, dd.got, dd.want) });
+                }
+            }
+            let _ = std::fs::remove_dir_all(&dir);
+        }
+    }
+    if images < 10 {
+        b.failures.push(Failure { facet: "golden-bytes".into(), replay: gdir.to_string_lossy().to_string(), detail: format!("only {} golden images found, 10 expected", images) });
+    }
+    finish(ctx, "golden", &b, vec![("golden_images", images.to_string())])
+}
+
+// ------------------------------------------------------------------------------------
+// C13: wrong key type / foreign signatures
+// ------------------------------------------------------------------------------------
+fn read_three(dir: &Path) -> Vec<Vec<u8>> {
+    ["htx", "key", "val"].iter().map(|e| std::fs::read(dir.join(format!("m0.{}", e))).unwrap_or_default()).collect()
+}
+
+/// tries to open m0 as `kt`; "accept" (and a lookup succeeded) / "reject"
+fn try_open(dir: &Path, kt: Kt) -> String {
+    let r = std::panic::catch_unwind(std::panic::AssertUnwindSafe(|| {
+        let mut imp = crate::imp::Impl::new(dir);
+        match imp.open(0, kt, &Params::buckets(8)) {
+            Err(_) => "reject".to_string(),
+            Ok(()) => {
+                let l = imp.exec(&Op::Len);
+                imp.close_all();
+                std::mem::forget(imp);
+                format!("accept len={}", l)
+            }
+        }
+    }));
+    match r {
+        Ok(s) => s,
+        Err(_) => "reject".into(),
+    }
+}
+
+pub fn scen_sig(ctx: &Ctx) -> i32 {
+    let thorough = ctx.tier_thorough;
+    let mut evaluations = 0u64;
+    let mut failures: Vec<Failure> = Vec::new();
+    let mut known: Vec<String> = Vec::new();
+    let mut samples: Vec<String> = Vec::new();
+    let mut rng = Rng::new(ctx.seed ^ fnv("sig"));
+    let Ok(mut d) = Driver::spawn(&ctx.driver) else { return 2 };
+    for a in Kt::ALL {
+        // a map of type `a` with a few entries
+        let base = fresh_dir(&ctx.scratch, &format!("sig_{}", a.name()));
+        {
+            let mut imp = crate::imp::Impl::new(&base);
+            let _ = imp.open(0, a, &Params::buckets(8));
+            d.ask(&format!("m{} open {} 8", a as usize, a.name()));
+            for i in 0..3 {
+                let k = gen_key(&mut rng, a, 0);
+                let v = B::Pat(5 + i, i as u64);
+                imp.exec(&Op::Put(k.clone(), v.clone()));
+                d.ask(&format!("m{} put {} {}", a as usize, k.tok(), v.tok()));
+            }
+            imp.close_all();
+        }
+        let orig = read_three(&base);
+        let mname = format!("m{}", a as usize);
+        let mut attempt = |as_kt: Kt, file: &str, pos: usize, val: u8, evaluations: &mut u64, failures: &mut Vec<Failure>, known: &mut Vec<String>, samples: &mut Vec<String>| {
+            let dir = fresh_dir(&ctx.scratch, "sig_try");
+            let mut files = orig.clone();
+            if file != "-" {
+                let fi = ["htx", "key", "val"].iter().position(|e| *e == file).unwrap();
+                files[fi][pos] = val;
+            }
+            for (i, e) in ["htx", "key", "val"].iter().enumerate() {
+                let _ = std::fs::write(dir.join(format!("m0.{}", e)), &files[i]);
+            }
+            let got = try_open(&dir, as_kt);
+            let after = read_three(&dir);
+            *evaluations += 1;
+            let model = d.ask(&format!("{} openas {} {} {} {}", mname, as_kt.name(), file, pos, val));
+            let desc = format!("create as {}, open as {}{}", a.name(), as_kt.name(), if file == "-" { String::new() } else { format!(", byte {} of the .{} file set to {}", pos, file, val) });
+            if samples.len() < 4 {
+                samples.push(format!("{} => {}", desc, got));
+            }
+            let accepted = got.starts_with("accept");
+            // the property: foreign type or foreign signature => refused; a refused open changes nothing
+            let must_reject = as_kt != a || (file != "-" && files != orig);
+            let mut problems: Vec<(String, String)> = Vec::new();
+            if must_reject && accepted {
+                problems.push(("oracle".into(), format!("{}: opened without complaint ({})", desc, got)));
+            }
+            if !accepted && after != files {
+                problems.push(("oracle".into(), format!("{}: the rejected open changed the files", desc)));
+            }
+            if (model == "accept") != accepted {
+                problems.push(("open".into(), format!("{}: implementation {} but the model says {}", desc, got, model)));
+            }
+            for (facet, p) in problems {
+                let is_known = facet == "oracle" && file == "-" && ((a == Kt::U64 && as_kt == Kt::Vu64) || (a == Kt::Vu64 && as_kt == Kt::U64)) && p.contains("without complaint");
+                if is_known {
+                    known.push(format!("files created as {} open as {} without complaint (both declare the type signature u64_le)", a.name(), as_kt.name()));
+                } else if failures.len() < 3 {
+                    let path = ctx.replays.join(format!("{}-{}-{:016x}.txt", ctx.prop, facet, fnv(&p)));
+                    let _ = std::fs::write(&path, format!("# property={} facet={}\n# {}\n# replay: create map m0 as `{}` with 3 entries, close; {} ; open as `{}`\n", ctx.prop, facet, p, a.name(), if file == "-" { "no mutation".to_string() } else { format!("set byte {} of m0.{} to {}", pos, file, val) }, as_kt.name()));
+                    failures.push(Failure { facet, replay: path.to_string_lossy().to_string(), detail: p });
+                }
+            }
+            let _ = std::fs::remove_dir_all(&dir);
+        };
+        for b in Kt::ALL {
+            attempt(b, "-", 0, 0, &mut evaluations, &mut failures, &mut known, &mut samples);
+        }
+        for file in ["htx", "key", "val"] {
+            let fi = ["htx", "key", "val"].iter().position(|e| *e == file).unwrap();
+            for pos in 0..16 {
+                let o = orig[fi][pos];
+                let vals: Vec<u8> = if thorough {
+                    (0..=255u8).filter(|v| *v != o).collect()
+                } else {
+                    let mut v = vec![o.wrapping_add(1), o.wrapping_sub(1), o ^ 0x20, o ^ 0x80, 0, 0xff, rng.below(256) as u8];
+                    v.retain(|x| *x != o);
+                    v.sort();
+                    v.dedup();
+                    v
+                };
+                for val in vals {
+                    attempt(a, file, pos, val, &mut evaluations, &mut failures, &mut known, &mut samples);
+                }
+            }
+        }
+        let _ = std::fs::remove_dir_all(&base);
+    }
+    known.sort();
+    known.dedup();
+    println!(
+        "{}",
+        obj(&[
+            ("scenario", esc("sig")),
+            ("property", esc(&ctx.prop)),
+            ("seed", ctx.seed.to_string()),
+            ("sequences", evaluations.to_string()),
+            ("distinct_sequences", evaluations.to_string()),
+            ("ops", evaluations.to_string()),
+            ("exhaustive", if thorough { "true".into() } else { "false".into() }),
+            ("samples", arr(&samples.iter().map(|s| esc(s)).collect::<Vec<_>>())),
+            ("known", arr(&known.iter().map(|s| esc(s)).collect::<Vec<_>>())),
+            ("failures", arr(&failures.iter().map(|f| obj(&[("facet", esc(&f.facet)), ("replay", esc(&f.replay)), ("detail", esc(&f.detail))])).collect::<Vec<_>>())),
+        ])
+    );
+    if failures.is_empty() { 0 } else { 1 }
+}
+
+// ------------------------------------------------------------------------------------
+// C16: a failed flush is reported and loses nothing (RLIMIT_FSIZE in a child process)
+// ------------------------------------------------------------------------------------
+pub fn scen_fault(ctx: &Ctx) -> i32 {
+    let thorough = ctx.tier_thorough;
+    let mut rng = Rng::new(ctx.seed ^ fnv("fault"));
+    let mut b = Batch::default();
+    let jobs = sizes(ctx, 10, 60);
+    let results: Mutex<Vec<(Vec<Failure>, u64, u64, Vec<String>, u64)>> = Mutex::new(Vec::new());
+    let next = Mutex::new(0usize);
+    let plans: Vec<(Seq, u64)> = (0..jobs)
+        .map(|i| {
+            let mut r = rng.fork(i as u64);
+            let kt = *r.pick(&Kt::ALL);
+            let n = *r.pick(&[8u64, 16, 64, 512]);
+            let mut p = Profile::basic(kt, n, r.range(3, 40) as usize);
+            p.w = [60, 0, 10, 0, 0, 0, 0, 0, 0, 0, 0, 2, 0, 0];
+            p.val_mode = *r.pick(&[1u8, 2, 2, 3]);
+            p.pool = r.range(2, 15) as usize;
+            (gen_history(&mut r, &p), r.next())
+        })
+        .collect();
+    std::thread::scope(|sc| {
+        for t in 0..ctx.threads.min(plans.len().max(1)) {
+            let plans = &plans;
+            let results = &results;
+            let next = &next;
+            sc.spawn(move || loop {
+                let i = {
+                    let mut g = next.lock().unwrap();
+                    let i = *g;
+                    *g += 1;
+                    i
+                };
+                if i >= plans.len() {
+                    break;
+                }
+                let (seq, salt) = &plans[i];
+                let mut fails: Vec<Failure> = Vec::new();
+                let mut ops = 0u64;
+                let mut cases = 0u64;
+                let mut samples = Vec::new();
+                let mut reported_errs = 0u64;
+                // a dry run to learn the file sizes => thresholds
+                let probe = fresh_dir(&ctx.scratch, &format!("fault_probe_{}_{}", t, i));
+                let mut oracle: std::collections::BTreeMap<Vec<u8>, Vec<u8>> = Default::default();
+                {
+                    let mut imp = crate::imp::Impl::new(&probe);
+                    let _ = imp.open(0, seq.kt, &seq.params);
+                    for o in &seq.ops {
+                        imp.exec(o);
+                        match o {
+                            Op::Put(k, v) => {
+                                oracle.insert(k.bytes(), v.bytes());
+                            }
+                            Op::Del(k) => {
+                                oracle.remove(&k.bytes());
+                            }
+                            Op::BulkPut(kvs) | Op::PutFromIter(kvs) | Op::BulkPutString(kvs) => {
+                                for (k, v) in kvs {
+                                    oracle.insert(k.bytes(), v.bytes());
+                                }
+                            }
+                            Op::BulkDel(ks) => {
+                                for k in ks {
+                                    oracle.remove(&k.bytes());
+                                }
+                            }
+                            _ => {}
+                        }
+                    }
+                    imp.close_all();
+                }
+                let lens: Vec<u64> = ["htx", "key", "val"].iter().map(|e| std::fs::metadata(probe.join(format!("m0.{}", e))).map(|m| m.len()).unwrap_or(0)).collect();
+                let _ = std::fs::remove_dir_all(&probe);
+                let mut th: Vec<u64> = vec![0, 1, 16, 100, 191, 192, 193];
+                for l in &lens {
+                    th.extend([l.saturating_sub(1), *l, l + 1, l / 2, l / 3]);
+                    let mut c = 4096;
+                    while c < *l && th.len() < 60 {
+                        th.extend([c - 1, c, c + 1]);
+                        c += if thorough { 4096 } else { 4096 * 8 };
+                    }
+                }
+                th.sort();
+                th.dedup();
+                if !thorough && th.len() > 14 {
+                    let mut r = Rng::new(*salt);
+                    let mut keep: Vec<u64> = vec![0, th[th.len() - 1]];
+                    while keep.len() < 14 {
+                        keep.push(*r.pick(&th));
+                    }
+                    keep.sort();
+                    keep.dedup();
+                    th = keep;
+                }
+                let maxlen = *lens.iter().max().unwrap_or(&0);
+                for (ti, limit) in th.iter().enumerate() {
+                    let dir = fresh_dir(&ctx.scratch, &format!("fault_{}_{}_{}", t, i, ti));
+                    let mut c = crate::exec::ChildExec::new(&dir);
+                    let mut ok = c.send(&Op::Map(0, seq.kt, seq.params).text()) == "ok";
+                    for o in &seq.ops {
+                        let a = c.send(&o.text());
+                        ok = ok && !a.starts_with("panic") && a != "child-dead";
+                        ops += 1;
+                    }
+                    let syncop = [Op::Flush, Op::SyncAll, Op::SyncData, Op::DbSyncAll, Op::DbSyncData][(ti + i) % 5].clone();
+                    let mut problem: Option<String> = None;
+                    if !ok {
+                        problem = Some("the updates themselves failed".into());
+                    } else {
+                        c.send(&format!("!rlimit {}", limit));
+                        let r1 = c.send(&syncop.text());
+                        cases += 1;
+                        if r1.starts_with("err") {
+                            reported_errs += 1;
+                        }
+                        if r1 == "ok" {
+                            // Ok => everything must be on disk now
+                            let snap = dir.with_extension("snap");
+                            let _ = std::fs::remove_dir_all(&snap);
+                            let _ = std::fs::create_dir_all(&snap);
+                            for e in ["htx", "key", "val"] {
+                                let _ = std::fs::copy(dir.join(format!("m0.{}", e)), snap.join(format!("m0.{}", e)));
+                            }
+                            let mut os = std::collections::BTreeMap::new();
+                            os.insert(0usize, oracle.clone());
+                            if let Some(e) = check_dir_against_oracle(&snap, &[(0, seq.kt)], &os) {
+                                problem = Some(format!("{} returned Ok under RLIMIT_FSIZE={} but the directory does not hold the updates: {}", syncop.text(), limit, e));
+                            }
+                            let _ = std::fs::remove_dir_all(&snap);
+                        } else if !r1.starts_with("err") {
+                            problem = Some(format!("{} under RLIMIT_FSIZE={} => {}", syncop.text(), limit, r1));
+                        } else if *limit > maxlen + 8 {
+                            problem = Some(format!("{} reports {} although the limit {} is above every file length {:?}", syncop.text(), r1, limit, lens));
+                        }
+                        // the in-memory view stays correct: while the limit is active a read may itself
+                        // fail (it can force a write-back), but it never returns wrong data; after the
+                        // limit is lifted every read is right again
+                        for phase in 0..2 {
+                            if problem.is_some() {
+                                break;
+                            }
+                            if phase == 1 {
+                                c.send(&format!("!rlimit {}", u64::MAX));
+                            }
+                            let l = c.send(&Op::Len.text());
+                            if l != oracle.len().to_string() && !(phase == 0 && l.starts_with("err")) {
+                                problem = Some(format!("after the failed {} (limit {}{}): len = {} instead of {}", syncop.text(), limit, if phase == 1 { ", lifted" } else { "" }, l, oracle.len()));
+                            }
+                            for (k, v) in oracle.iter().take(40) {
+                                let g = c.send(&Op::Get(B::Hex(k.clone())).text());
+                                if g != repr_opt(&Some(v.clone())) && !(phase == 0 && g.starts_with("err")) {
+                                    problem = Some(format!("after the failed {} (limit {}{}): get {} = {}", syncop.text(), limit, if phase == 1 { ", lifted" } else { "" }, hex(k), g));
+                                    break;
+                                }
+                            }
+                        }
+                        // lift the limit: a later flush makes everything durable
+                        if problem.is_none() {
+                            c.send(&format!("!rlimit {}", u64::MAX));
+                            let r2 = c.send(&Op::Flush.text());
+                            if r2 != "ok" {
+                                problem = Some(format!("flush after lifting the limit => {}", r2));
+                            } else {
+                                let snap = dir.with_extension("snap");
+                                let _ = std::fs::remove_dir_all(&snap);
+                                let _ = std::fs::create_dir_all(&snap);
+                                for e in ["htx", "key", "val"] {
+                                    let _ = std::fs::copy(dir.join(format!("m0.{}", e)), snap.join(format!("m0.{}", e)));
+                                }
+                                let mut os = std::collections::BTreeMap::new();
+                                os.insert(0usize, oracle.clone());
+                                if let Some(e) = check_dir_against_oracle(&snap, &[(0, seq.kt)], &os) {
+                                    problem = Some(format!("limit {} during {}, then lifted, then flush => Ok, but the directory does not hold the updates: {}", limit, syncop.text(), e));
+                                }
+                                let _ = std::fs::remove_dir_all(&snap);
+                            }
+                        }
+                        if samples.len() < 2 {
+                            samples.push(format!("{} ops, then RLIMIT_FSIZE={} , {} => {} ; lifted; flush", seq.ops.len(), limit, syncop.text(), r1));
+                        }
+                    }
+                    c.kill9();
+                    let _ = std::fs::remove_dir_all(&dir);
+                    if let Some(p) = problem {
+                        if fails.len() < 2 {
+                            let path = ctx.replays.join(format!("{}-oracle-{:016x}.txt", ctx.prop, fnv(&format!("{}{}", p, seq.text()))));
+                            let _ = std::fs::write(&path, format!("# property={} facet=oracle (fault injection)\n# {}\n# replay: run the operations below in a child process, then setrlimit(RLIMIT_FSIZE, {}) with SIGXFSZ ignored, then `{}`, then lift the limit and `flush`\n{}", ctx.prop, p, limit, syncop.text(), seq.text()));
+                            fails.push(Failure { facet: "oracle".into(), replay: path.to_string_lossy().to_string(), detail: p });
+                        }
+                    }
+                }
+                results.lock().unwrap().push((fails, ops, cases, samples, reported_errs));
+            });
+        }
+    });
+    let mut cases = 0;
+    let mut errs = 0;
+    for (f, ops, c, s, e) in results.into_inner().unwrap() {
+        b.ops += ops;
+        b.sequences += c;
+        cases += c;
+        errs += e;
+        for x in f {
+            if b.failures.len() < 3 {
+                b.failures.push(x);
+            }
+        }
+        if b.samples.len() < 3 {
+            b.samples.extend(s);
+        }
+    }
+    for p in &plans {
+        b.distinct.insert(fnv(&p.0.text()));
+    }
+    finish(ctx, "fault", &b, vec![("fault_cases", cases.to_string()), ("flushes_reporting_error", errs.to_string())])
 }
